@@ -208,7 +208,9 @@ pub fn run_case(idents: &[Ident], idx: u64, rng: &mut Rng, thorough: bool, hist:
             size: 0,
         };
         let li = recs.get(&local_spec);
-        let mut cb = base_config(mode_n);
+        // a third of the cases hand the service sockets the application created itself (same modes)
+        let from_sockets = rng.chance(1, 3);
+        let mut cb = base_config(if from_sockets { mode_n + 3 } else { mode_n });
         cb.table_filter(table_filter(filter_n));
         if ip_limit {
             cb.ip_limit();
@@ -235,7 +237,7 @@ pub fn run_case(idents: &[Ident], idx: u64, rng: &mut Rng, thorough: bool, hist:
         if c.a.s.ip_mode != mode {
             c.failures.push(("C12".into(), "the service does not run in the configured IP mode".into()));
         }
-        c.hist.add(&format!("c12:mode_{:?}", mode));
+        c.hist.add(&format!("c12:mode_{:?}{}", mode, if from_sockets { "_from_sockets" } else { "" }));
         c.hist.add(&format!("c12:filter_{}", ["accept_all", "reject_all", "reject_subnet", "reject_seq_ge_100"][filter_n as usize]));
         let nsteps = if thorough { rng.range(30, 70) } else { rng.range(18, 40) };
         for _ in 0..nsteps {
